@@ -167,6 +167,26 @@ def handle : Handler := fun op inp impl =>
         else if impl'.startsWith "/" then "rewritten:rooted"
         else if impl'.startsWith ".." then "rewritten:leading-dotdot"
         else if impl' == "." then "rewritten:to-dot" else "rewritten" }
+  | "runmode" =>
+    -- the real Run with recording peers: which names were handed to the client, for which commands
+    let cCmd := bool (field impl "clientCmd")
+    let sCmd := bool (field impl "serverCmd")
+    let m := runMode cCmd sCmd
+    let mNum := match m with | .unspec => "0" | .client => "1" | .server => "2"
+    let sent := strList (field impl "sent")
+    let lib (k : String) := strList (field (field impl "lib") k)
+    let suites : List (String × Mode) := (arr (field inp "suites")).map fun s => (str (field s "name"), Mode.ofNum (nat (field s "suiteMode")))
+    -- the property: nothing of a suite whose mode does not admit the run mode, everything else of the library
+    let foreign := sent.filter fun n => suites.any fun (sn, sm) => n.startsWith (sn ++ "/") && !(sm == .unspec || sm == m)
+    let runErr := str (field impl "runErr")
+    let holds := foreign.isEmpty && (sent == lib mNum || runErr != "")
+    { agree := sent == lib mNum && runErr == "" && str (field impl "loadErr") == "", holds := holds,
+      nontrivial := lib "0" != lib "1" || lib "0" != lib "2",
+      model := Json.mkObj [("mode", mNum)],
+      why := if !foreign.isEmpty then "permutations of a suite whose mode does not admit this run were handed to the client: " ++ toString (foreign.take 3)
+        else if !holds then "the client was handed " ++ toString sent.length ++ " permutations, the library for run mode " ++ mNum ++ " has " ++ toString (lib mNum).length
+        else "",
+      cls := "runmode:" ++ mNum }
   | _ => bad ("C07: unknown op " ++ op)
 
 end ConfModel.Driver.C07
